@@ -299,7 +299,10 @@ def nesting_component(ck, runner, tier):
             res = runner.run([sql, "SELECT 1"], timeout=60)
             ck.count(comp, 1)
             ck.nontrivial((name, d))
-            if isinstance(res, dict):
+            if isinstance(res, dict) and "overflowed its stack" in str(res.get("crash", "")):
+                # the same defect as the probe below (no depth limit), reached at a smaller depth by a shape with larger frames
+                ck.violation("nesting/stack-overflow", f"{name} nested {d} deep overflows the native stack and aborts the process", {"kind": "crash", "shape": name, "depth": d, "stmt": sql[:400], "result": res})
+            elif isinstance(res, dict):
                 ck.violation(f"nesting/{name}/depth-{d}/crash", f"{name} nested {d} deep kills or hangs the process: {str(res)[:160]}", {"kind": "crash", "shape": name, "depth": d, "stmt": sql[:400], "result": res})
             elif "panic" in res[0]:
                 ck.violation(f"nesting/{name}/depth-{d}/panic", f"{name} nested {d} deep panics: {res[0]['panic'][:100]}", {"kind": "crash", "shape": name, "depth": d, "stmt": sql[:400]})
